@@ -64,6 +64,16 @@ def run():
         ks, iset = i % 3, i % len(apiscen.INPUTSETS)
         opts = {'hard': hard, 'secure': secure, 'cachejit': i % 2}
         scens.append({'ks': ks, 'iset': iset, 'full': full, 'text': apiscen.to_text(h, opts), 'cfg': (kind, hard, secure, v2)})
+    # pipelines right after a hash whose programs contain no CFROUND (apiscen.NC_INPUTS): the words in force at hash_next / hash_last have
+    # another rounding mode; the reset before program 1 must not be conditional on what the previous programs did
+    for kind in ('IL', 'CL'):
+        h = [A(a='AllocCache', c='c1', s='s1', m='m1'), A(a='InitCache', c='c1', k='K1'), A(a='CreateVm', v='v1', kind=kind, c='c1', d='none', v2=False),
+             A(a='Hash', v='v1', key='K1', **{'in': 'I1'})]
+        for w, w2, w3 in ((0x1F80, 0x3F80, 0x5F80), (0x7F80, 0x5F80, 0x3F80), (0x1F80, 0x7F80, 0x7F80)):
+            h += [A(a='SetCsr', csr=w), A(a='HashFirst', v='v1', **{'in': 'I1'}), A(a='SetCsr', csr=w2),
+                  A(a='HashNext', v='v1', key='K1', pin='I1', **{'in': 'I1'}), A(a='SetCsr', csr=w3),
+                  A(a='HashLast', v='v1', key='K1', pin='I1'), A(a='SetCsr', csr=w2), A(a='Hash', v='v1', key='K1', **{'in': 'I1'})]
+        scens.append({'ks': 0, 'iset': apiscen.NC_ISET, 'full': False, 'text': apiscen.to_text(h, {'hard': 0, 'secure': 0, 'cachejit': 1 if kind == 'CL' else 0}), 'cfg': (kind, 0, 0, False)})
     combos = sorted(set((s['ks'], s['iset']) for s in scens))
     fullc = set((s['ks'], s['iset']) for s in scens if s['full'])
     tabs = apiscen.fresh_tables(combos, lambda c: ['IL', 'CL', 'IF', 'CF'] if c in fullc else ['IL', 'CL'], os.path.join(wd, 'fresh'))
